@@ -336,3 +336,35 @@ for _aio in (True, False):
         scn(name=f"grad_list:all_in_one={_aio},orders={_orders}", func="grad.grad_list", props=("C15",),
             args=(lambda o, a: (lambda it: (None, [VOpaque("val"), VList([make_tt(it, f"t{j}", False, dd) for j, dd in enumerate(o)]), VBool(a)], {})))(_orders, _aio),
             check=_grads_expected(_aio, _orders))
+
+
+# --------------------------------------------------------------------------- thorough tier: the same closed-value specifications at order 4
+
+for _d, _idx in ((4, [0]), (4, [1, 2]), (4, [0, 3]), (4, [3]), (4, [0, 1, 2, 3])):
+    scn(name=f"sum:tt{_d}{_idx}", func=TT + "sum", props=("C07",), tier="thorough",
+        args=(lambda d, ix: (lambda it: (make_tt(it, "x", False, d), [VList([VInt(P.const(i)) for i in ix])], {})))(_d, _idx),
+        check=closed_check(_sum_expected(False, _d, set(_idx)), f"sum({_idx})"))
+for _d, _dim, _n in ((4, 0, 2), (4, 2, 2), (4, 3, 3)):
+    scn(name=f"cat:d{_d}.dim{_dim}.n{_n}", func="_extras.cat", props=("C09",), tier="thorough",
+        args=(lambda d, dim, n: (lambda it: (None, [VTuple(tuple(make_tt(it, f"t{j}", False, d) for j in range(n))), VInt(P.const(dim))], {})))(_d, _dim, _n),
+        check=closed_check(_cat_expected(_d, _dim, [f"t{j}" for j in range(_n)]), f"cat(dim={_dim})"))
+for _d, _np in ((4, 4), (4, 2)):
+    scn(name=f"pad:tt{_d}.p{_np}.zero", func="_extras.pad", props=("C09",), tier="thorough",
+        args=_pad_args(_d, _np, VFloat(0.0)), check=closed_check(_pad_tt_expected(_d, _np, None), "pad(x, 0)"))
+    scn(name=f"pad:tt{_d}.p{_np}.value", func="_extras.pad", props=("C09",), tier="thorough",
+        args=_pad_args(_d, _np, VScalar(Coef.sym("v"), "float")),
+        presets={"scalar == 0": False}, check=closed_check(_pad_tt_expected(_d, _np, Coef.sym("v")), "pad(x, value)"))
+
+
+def _gi4(name, index, spec):
+    scn(name=f"getitem:{name}", func=TT + "__getitem__", props=("C08",), tier="thorough",
+        args=(lambda: (lambda it: (make_tt(it, "x", False, 4), [index], {})))(),
+        check=closed_check(_index_expected(False, 4, spec), f"x[{name}]"))
+
+
+_gi4("tt4[a,b,:,s]", VTuple((UI("a"), UI("b"), FULL, US("s"))), [("int", "a"), ("int", "b"), ("keep",), ("slice", "s")])
+_gi4("tt4[s,a,b,:]", VTuple((US("s"), UI("a"), UI("b"), FULL)), [("slice", "s"), ("int", "a"), ("int", "b"), ("keep",)])
+_gi4("tt4[:,a,:,b]", VTuple((FULL, UI("a"), FULL, UI("b"))), [("keep",), ("int", "a"), ("keep",), ("int", "b")])
+_gi4("tt4[...,a,b]", VTuple((ELL, UI("a"), UI("b"))), [("keep",), ("keep",), ("int", "a"), ("int", "b")])
+_gi4("tt4[None,a,...]", VTuple((VNone(), UI("a"), ELL)), [("none",), ("int", "a"), ("keep",), ("keep",), ("keep",)])
+_gi4("tt4[a,b,c,e]", VTuple((UI("a"), UI("b"), UI("c"), UI("e"))), [("int", "a"), ("int", "b"), ("int", "c"), ("int", "e")])
